@@ -38,3 +38,12 @@ chk("C04",
     "Exhaustive enumeration of schedules (preemption-bounded) of concurrent Gets plus caller behaviour after return (overwrite or reuse of the key buffer at every scheduling position relative to the background build, context cancellation) and one injected backend fault at every call position; termination through the scheduler's deadlock detection, lock accounting at quiescence, and a black-box follow-up that must rebuild every key exactly once.",
     "Trusted: verif-tagged key-lock accessor; follow-up phase as the black-box meaning of 'a later Get is able to build again'. Same granularity and bounds as C01.",
     "stateless model checking of the implementation with fault enumeration (preemption- and deviation-bounded DFS, deadlock detection)", "DESIGN.md §C04")
+
+chk("C05",
+    "(a,c) exhaustive schedule enumeration of SyncRead bursts (2-3 threads) on the real code with a builder-invocation counter as oracle; (b) exhaustive enumeration of all operation sequences up to the bound over Get(ok)/Get(fail)/clock advances around the failure window, for three FailedUpdateTTL settings and the jitter answer at both extremes, under the virtual clock.",
+    "Trusted: virtual clock/rand seams. Bursts happen at one virtual instant; bounds as C01.",
+    "stateless model checking of the implementation (schedules) + exhaustive bounded operation-sequence enumeration", "DESIGN.md §C05")
+chk("C06",
+    "Complete enumeration of the caller-TTL x builder-WithTTL-behaviour x path x cancellation grid on the three front-ends, each case run under the scheduler with all schedules; a recording backend wrapper and the builder observe the TTL of every store and the build context.",
+    "Trusted: recording wrapper; 'smallest non-zero' read over signed durations. TTL values outside the grid are not explored.",
+    "exhaustive enumeration of a finite input/configuration table + stateless model checking of each case", "DESIGN.md §C06")
